@@ -10,4 +10,15 @@ __CPROVER_assigns()
 __CPROVER_ensures((__CPROVER_return_value != 0) == (spec_prefix_equal(check, mask, bits) != 0))
 ;
 
+/* Frame-only contract of the static dotted-quad parser.  Used (by replacement) in the IPv6
+ * shards of the C12 round trip, where the printed text contains no '.', so the parser is
+ * called on infeasible paths only; enforced for every string of bounded length in
+ * C13.pton_ip4.safety. */
+static unsigned int irc_pton_ip4(const char *input, unsigned int *pbits, uint32_t *output, int allow_trailing)
+__CPROVER_requires(__CPROVER_r_ok(input, 1) && __CPROVER_w_ok(output, sizeof(*output)))
+__CPROVER_requires(pbits == NULL || __CPROVER_w_ok(pbits, sizeof(*pbits)))
+__CPROVER_assigns(*output; pbits != NULL: *pbits)
+__CPROVER_ensures(1)
+;
+
 #endif
